@@ -27,6 +27,13 @@ partial def parseDep : List String → Option (DepFn Float × List String)
     match parseDep rest with
     | some (d, rest') => some (.chained (fOfTok a) (fOfTok b) d, rest')
     | none => none
+  | "r" :: a :: rest =>
+    match parseDep rest with
+    | some (n, rest') =>
+      match parseDep rest' with
+      | some (d, rest'') => some (.ratio (fOfTok a) n d, rest'')
+      | none => none
+    | none => none
   | _ => none
 
 def parseDims : Nat → List String → Array DimSpec → Option (ModelSpec × List String)
